@@ -6,6 +6,7 @@ import ast
 
 from sa.cfg import cfg_of
 from sa.facts import result_sites
+from sa.guards import atoms as _atoms
 from sa.guards import GuardView, atom_of, names_in
 from sa.index import own_nodes
 from sa.report import Ctx
@@ -150,10 +151,30 @@ def run(ctx: Ctx):
             frm = ast.unparse(keyt.elts[2])
             ok = ast.unparse(keyt.elts[0]) == ew and ast.unparse(keyt.elts[3]) == nb and src == f"graph.get({frm}, [])"
         ctx.ob("C13-O2", "R21 search discipline", p, "pushed key = (edge weight, tiebreak, tree end, neighbour) for edges of the node just added", ok, ast.unparse(keyt), node=ph)
+    for ph in pushes:
+        tb = ast.unparse(ph.args[1].elts[1]) if isinstance(ph.args[1], ast.Tuple) and len(ph.args[1].elts) == 4 else "?"
+        blk = _enclosing_block(p.node, cfg.stmt_node_containing(ph).ast)
+        idx = next((i for i, st_ in enumerate(blk) if st_ is cfg.stmt_node_containing(ph).ast), None) if blk is not None else None
+        nxt = blk[idx + 1 :] if idx is not None else []
+        ctx.ob("C13-O2", "R16 PAIRED-EFFECTS", p, "the tie-breaker grows with every push (no two entries share it)", any(isinstance(x, ast.AugAssign) and ast.unparse(x.target) == tb and isinstance(x.op, ast.Add) for x in nxt), f"`{tb}` is not incremented after `{ast.unparse(ph)[:50]}`: entries of equal weight then fall through to comparing node labels", node=ph)
     inloop = [ph for ph in pushes if cfg.stmt_node_containing(ph).loop is not None and cfg.stmt_node_containing(ph).loop.loop is not None]
     for ph in inloop:
-        at = gv.guard_atoms(cfg.stmt_node_containing(ph), stable_only=False)
-        ctx.ob("C13-O2", "R21 search discipline", p, "edges are pushed only towards nodes outside the tree", any(a.endswith("not in in_mst") for a in at), "", node=ph)
+        pn = cfg.stmt_node_containing(ph)
+        inside = {id(x) for x in ast.walk(pn.loop.ast)}
+        at = set()
+        for br in cfg.guards(pn):
+            if br.test.kind == "test" and id(br.test.ast) in inside:
+                at |= _atoms(br.test.ast, br.pol)
+        nbv = ast.unparse(pn.loop.ast.target.elts[0]) if isinstance(pn.loop.ast.target, ast.Tuple) else "?"
+        ctx.ob("C13-O2", "R21 search discipline", p, "an edge of the node just added is pushed unless its far end is already in the tree (and only then skipped)", at <= {f"{nbv} not in in_mst"}, f"pushes happen under {sorted(at)}: crossing edges that are never pushed can include the lightest one", node=ph)
+    # the search starts from a node of the graph (the caller's, or the first key) and runs while the heap has entries
+    from .sat_common import _need
+
+    _need(ctx, "C13-O2", "R21 search discipline", p, "without a caller's start node the first key of the graph is taken; the tree starts as {start}", ["if start is None:\n        start = next(iter(graph.keys()))", "in_mst: set[Node] = {start}"])
+    wl = [n for n in own_nodes(p.node) if isinstance(n, ast.While)]
+    ctx.require(len(wl) == 1, "prim main loop not found")
+    wat = _atoms(wl[0].test, True)
+    ctx.ob("C13-O2", "R2 BUDGET-EXIT", p, "the main loop runs as long as the heap has entries (it may stop once every node is in the tree)", "T:heap" in wat and wat <= {"T:heap", atom_of("len(in_mst) < len(nodes)")}, f"loop test `{ast.unparse(wl[0].test)}`: a loop that gives up while crossing edges are waiting reports INFEASIBLE for a connected graph", node=wl[0])
     for s in result_sites(p):
         at = gv.guard_atoms(s.node)
         if "INFEASIBLE" in s.statuses:
@@ -167,6 +188,14 @@ def run(ctx: Ctx):
     rets = [n for n in own_nodes(un.node) if isinstance(n, ast.Return)]
     vals = sorted(ast.unparse(r.value) for r in rets)
     ctx.ob("C13-O3", "R29 EXACTLY-ONCE", un, "union returns False without merging when the roots coincide, True after a merge", vals == ["False", "True"], f"{vals}", node=un.node)
+    ucfg = cfg_of(un.node)
+    ugv = GuardView(ucfg)
+    for r in rets:
+        at = ugv.guard_atoms(ucfg.node_of(r), stable_only=False)
+        if ast.unparse(r.value) == "False":
+            ctx.ob("C13-O3", "R29 EXACTLY-ONCE", un, "`return False` is reached exactly when the two roots coincide", atom_of("rx == ry") in at, f"{sorted(at)}: kruskal accepts an edge iff union() says it merged - a wrong verdict accepts a cycle edge or rejects a tree edge", node=r)
+        else:
+            ctx.ob("C13-O3", "R29 EXACTLY-ONCE", un, "`return True` is reached only for different roots", atom_of("rx != ry") in at, f"{sorted(at)}", node=r)
     # kruskal accepts an edge iff union() merged: find must return the true root and compress without splitting a tree
     from .c20 import field_writes
 
